@@ -1,6 +1,8 @@
 package extcfs
 
 import (
+	"io"
+
 	"github.com/goatcms/goatcore/filesystem"
 	"github.com/goatcms/goatcore/filesystem/filespace/encryptfs/cipherfs"
 	"github.com/goatcms/goatcore/varutil/goaterr"
@@ -41,7 +43,7 @@ func (c Cipher) DecryptReader(key []byte, stream filesystem.Reader) (reader file
 		p          = make([]byte, 4)
 		fileCipher cipherfs.Cipher
 	)
-	if _, err = stream.Read(p); err != nil {
+	if _, err = io.ReadFull(stream, p); err != nil {
 		return nil, err
 	}
 	ckey = NewCipherKey(p)
@@ -70,9 +72,13 @@ func (c Cipher) Encrypt(key []byte, data []byte) (encrypted []byte, err error) {
 // Decrypt AES GCM data with key
 func (c Cipher) Decrypt(key []byte, data []byte) (decrypted []byte, err error) {
 	var (
-		ckey       = NewCipherKey(data[:4])
+		ckey       CipherKey
 		fileCipher cipherfs.Cipher
 	)
+	if len(data) < 4 {
+		return nil, goaterr.Errorf("encrypted data is too short")
+	}
+	ckey = NewCipherKey(data[:4])
 	if fileCipher = c.mapping[ckey]; fileCipher == nil {
 		return nil, goaterr.Errorf("Unknow cipher for %v key", ckey)
 	}
